@@ -60,6 +60,13 @@ def gen_plan(seed, tier):
         style = rng.choice(['compatible', 'conflict', 'conflict', 'cyclic'])
         n = 1 if which == 'not_' else rng.choice([1, 2, 2, 3, 4])
         members = [gen_member(rng, dim, style) for _ in range(n)]
+        if which == 'or_' and rng.random() < 0.25:
+            # or_ accepts a vector only when re-applying a member to its own result changes nothing: a slowly converging
+            # member (a contraction) must be iterated to its exact fixed point, or given up on -- never accepted early
+            j = rng.randrange(n)
+            members[j] = {'family': 'relax', 'form': rng.choice(['pure', 'inplace']),
+                          'params': {'t': rng.choice([0.0, 1.0, -2.5, gen.r2(rng, -3, 3)]),
+                                     'idx': sorted(rng.sample(range(dim), rng.randint(1, dim)))}}
         if style == 'cyclic' and n >= 2:
             # a clamp that sends the jumper's target back below its threshold
             j = members[0]
